@@ -63,7 +63,7 @@ theorem applyBlock_eq_NF {s : State} {b : Header} (hme : s.cfg.me = none) (hsup 
                       if me ≥ s.cfg.nVal then (b.sup, ({ s with tree := tree1 } : State).posted)
                       else if tn.ckpt.sup.any (fun l => hasSlot l me) then (b.sup, ({ s with tree := tree1 } : State).posted)
                       else if !(({ s with tree := tree1 } : State).verifyVerification tree1 me src.hash src.height b.id b.height true) then (b.sup, ({ s with tree := tree1 } : State).posted)
-                      else (addSupLink b.sup src.hash src.height { slot := me, valid := true },
+                      else (addSupLinkH b.sup src.hash src.height { slot := me, valid := true },
                             ({ s with tree := tree1 } : State).posted ++ [(me, src.hash, b.id)])
                 let s2 : State := { ({ s with tree := tree1 } : State) with posted := posted1 }
                 let (tree2, ckpts2, aff, ok) := s2.applySupLinks b.id sup1 tree1 s2.ckpts []
